@@ -413,6 +413,8 @@ impl<'tcx> Dumper<'tcx> {
             if let Some(tr) = tcx.impl_opt_trait_ref(d) {
                 let tr = tr.instantiate_identity().skip_norm_wip();
                 o.put("trait", J::s(self.path(tr.def_id)));
+                o.put("trait_crate", J::s(tcx.crate_name(tr.def_id.krate).as_str()));
+                o.put("trait_name", J::s(tcx.item_name(tr.def_id).as_str()));
                 o.put("trait_ref", J::s(format!("{}", tr)));
                 let targs: Vec<J> = tr.args.iter().skip(1).filter_map(|a| a.as_type()).map(|t| self.ty(t)).collect();
                 o.put("trait_args", J::Arr(targs));
